@@ -38,7 +38,19 @@ func buildFailing(r *rand.Rand, d *vkit.JNode, yaml bool, used *[]vkit.JPath) (a
 	if yaml {
 		missing = "$.zz_missing.nope"
 	}
-	switch r.IntN(7) {
+	switch r.IntN(8) {
+	case 7:
+		// the same Type matcher applied twice to one path: the second application sees the
+		// placeholder string left by the first, which is not of the expected type
+		p, ok := pickPath(r, d, func(p vkit.JPath) bool {
+			t := d.At(p)
+			return (yaml || gjsonAddressable(p)) && t.Kind == "bool" && free(p, *used)
+		})
+		if !ok {
+			return match.Any(missing), fSpec{"Any", missing, "missing-path"}, true
+		}
+		*used = append(*used, p)
+		return match.Type[bool](pathOf(p), pathOf(p)), fSpec{"Type", pathOf(p), "type-applied-twice"}, true
 	case 6:
 		// a path that EXISTS with value null is not a missing path: Type must reject it,
 		// with or without ErrOnMissingPath(false)
